@@ -12,6 +12,7 @@
 
 static en::Fails fails;
 static unsigned long g_evals = 0, g_loaded = 0, g_deep = 0, g_shaped = 0, g_fired = 0;
+static unsigned long g_salt = 0;      // derived from the case alone (offset, value, width): what is shaped how must replay identically in `one` mode
 static std::map<std::string, unsigned long> g_rejects;
 static bool g_shape = false;
 static std::vector<std::vector<uint32_t>> g_texts;      // shape=<hex,hex,...;hex,...>: probe texts (UTF-32); default: one fixed text
@@ -74,8 +75,8 @@ static void run_one(const std::vector<uint8_t> &font, unsigned opts, int src) {
         static const uint32_t txt[] = {0x61, 0x62, 0x63, 0x20, 0x1000, 0x1031, 0x61, 0x62};
         if (g_texts.empty()) g_texts.push_back(std::vector<uint32_t>(txt, txt + 8));
         for (size_t ti = 0; ti < g_texts.size(); ++ti) {
-            ShapeParams sp; sp.enc = 4; sp.dir = int((g_evals + ti) & 1); sp.want_dump = false; sp.query_all = true;
-            if (((g_evals >> 1) + ti) % 5 == 0) sp.ppm = ((g_evals >> 3) & 1) ? -13.f : 14.f;
+            ShapeParams sp; sp.enc = 4; sp.dir = int((g_salt + ti) & 1); sp.want_dump = false; sp.query_all = true;
+            if (((g_salt >> 1) + ti) % 5 == 0) sp.ppm = ((g_salt >> 5) & 1) ? -13.f : 14.f;
             sp.text.assign(reinterpret_cast<const uint8_t *>(g_texts[ti].data()), reinterpret_cast<const uint8_t *>(g_texts[ti].data()) + g_texts[ti].size() * 4);
             ShapeResult r;
             alarm(30);
@@ -106,6 +107,8 @@ static bool interesting(uint32_t tag) {
 }
 
 static void note(const char *kind, size_t off, unsigned val, unsigned width, unsigned opts, int src) {
+    g_salt = (unsigned long)(off) * 2654435761ul + val * 40503ul + width * 7ul;
+    g_salt ^= g_salt >> 13;
     uint8_t b[16];
     uint32_t o = uint32_t(off);
     memcpy(b, &o, 4); memcpy(b + 4, &val, 4); b[8] = uint8_t(width); b[9] = uint8_t(opts); b[10] = uint8_t(src);
